@@ -177,6 +177,8 @@ func (b *assignmentBuilder) structFieldAndStructGettersAndFields(lhs bmodel.Node
 				logger.Printf("%v: assignment found: sliceCopy(%v, %v)", methodPosStr, lhsExpr, rhs.AssignExpr())
 				return true
 			}
+			// A slice is copied into fresh storage or not at all.
+			return false
 		}
 
 		// A struct is copied as a whole only if no notation addresses one of its
@@ -436,7 +438,7 @@ func (b *assignmentBuilder) castNode(lhsType types.Type, rhs bmodel.Node) (c bmo
 		return b.castNode(lhsType, bmodel.NewStringer(rhs))
 	}
 
-	if b.opts.Typecast && types.ConvertibleTo(rhs.ExprType(), lhsType) {
+	if b.opts.Typecast && types.ConvertibleTo(rhs.ExprType(), lhsType) && b.nameable(lhsType) {
 		c, ok = bmodel.NewTypecast(b.pkg.Types.Scope(), b.imports, lhsType, rhs)
 		if !ok {
 			logger.Warnf("%v: typecast for %v is not implemented(yet) for %v",
@@ -618,6 +620,60 @@ func (b *assignmentBuilder) resolveTemplatedExpr(
 	return
 }
 
+// nameable reports whether the generated package can write the type down: every named
+// type in it is predeclared, local or exported, and it contains no literal struct or
+// interface type with unexported members of another package.
+func (b *assignmentBuilder) nameable(t types.Type) bool {
+	switch typ := t.(type) {
+	case *types.Named:
+		obj := typ.Obj()
+		if obj.Pkg() != nil && b.isExternalPkg(obj.Pkg()) && !obj.Exported() {
+			return false
+		}
+		for i := 0; i < typ.TypeArgs().Len(); i++ {
+			if !b.nameable(typ.TypeArgs().At(i)) {
+				return false
+			}
+		}
+		return true
+	case *types.Pointer:
+		return b.nameable(typ.Elem())
+	case *types.Slice:
+		return b.nameable(typ.Elem())
+	case *types.Array:
+		return b.nameable(typ.Elem())
+	case *types.Chan:
+		return b.nameable(typ.Elem())
+	case *types.Map:
+		return b.nameable(typ.Key()) && b.nameable(typ.Elem())
+	case *types.Struct:
+		for i := 0; i < typ.NumFields(); i++ {
+			field := typ.Field(i)
+			if !field.Exported() && b.isExternalPkg(field.Pkg()) || !b.nameable(field.Type()) {
+				return false
+			}
+		}
+		return true
+	case *types.Interface:
+		for i := 0; i < typ.NumMethods(); i++ {
+			if m := typ.Method(i); !m.Exported() && b.isExternalPkg(m.Pkg()) {
+				return false
+			}
+		}
+		return true
+	case *types.Signature:
+		return b.nameable(typ.Params()) && b.nameable(typ.Results())
+	case *types.Tuple:
+		for i := 0; i < typ.Len(); i++ {
+			if !b.nameable(typ.At(i).Type()) {
+				return false
+			}
+		}
+		return true
+	}
+	return true
+}
+
 // sliceToSlice attempts to create a slice-to-slice assignment between the given
 // left-hand side and right-hand side nodes. If the elements of the slices are
 // assignable, a simple slice copy or a loop-based copy is generated. If the
@@ -627,6 +683,11 @@ func (b *assignmentBuilder) sliceToSlice(lhs, rhs bmodel.Node) (a gmodel.Assignm
 	lhsElem := util.SliceElement(lhs.ExprType())
 	rhsElem := util.SliceElement(rhs.ExprType())
 	if lhsElem == nil || rhsElem == nil {
+		return
+	}
+	if !b.nameable(lhsElem) {
+		// The copy has to spell the element type (make([]T, n)), which the
+		// generated package cannot do for this one.
 		return
 	}
 
